@@ -842,7 +842,9 @@ func (m *Dense) RankOne(a Matrix, alpha float64, x, y Vector) {
 func (m *Dense) Outer(alpha float64, x, y Vector) {
 	r, c := x.Len(), y.Len()
 
-	m.reuseAsZeroed(r, c)
+	// The receiver is zeroed or fully overwritten below, after x and y
+	// have been checked for overlap with it.
+	m.reuseAsNonZeroed(r, c)
 
 	var xmat, ymat blas64.Vector
 	fast := true
